@@ -317,3 +317,7 @@ func (s *Sched) Steps() int { return s.steps }
 
 // Threads reports how many logical threads were created.
 func (s *Sched) Threads() int { return len(s.threads) }
+
+// AddTimer registers a callback at d from now in virtual time (harness use: e.g. a
+// transport deadline). The callback runs in scheduler context.
+func AddTimer(d time.Duration, name string, f func()) { must().addTimer(d, name, f) }
